@@ -53,7 +53,7 @@ def check_C02(tier, seed):
         if not b["bad"] and o["exec"]["rows"] and b["ncalls"] >= 4: res.sample(brief(inst, {"rows": len(o["exec"]["rows"]), "resolver_calls": b["ncalls"], "policies": b["policies"]}), cap=2)
     # (2) the model: every schedule of the general bounded-buffer adapter (Cap 2, pulls inside calls) on small instances
     small = [PI.interp_instance(i, o) for i, o in zip(insts, obs) if PI.usable(i, o, 12) and o.get("trace") and o["trace"][0].get("t") == "ok" and len(o["trace"][0]["events"]) <= (110 if quick else 170)]
-    small = small[: (40 if quick else 200)]
+    small = PI.stratify(small, 40 if quick else 200)
     for k, x in enumerate(small): x["id"] = k + 1
     mc = PI.mc_explore(res, small, "MC_Interp_c2", wd, "mc", timeout=(240 if quick else 2400))
     for inv, x in mc["violated"]:
@@ -100,7 +100,7 @@ def check_C02(tier, seed):
                        f"(2) TLC explores spec/Interp.tla over EVERY schedule of the general order-preserving adapter (buffer <= 2, pulls inside resolver calls) for {len(small)} small instances whose IR comes from the real frontend, "
                        "checking NoPanic, carrier discipline (LentIffInCall), rows = the real engine's rows in order and = Sem as a bag in every state; (3) real AdapterTap traces of batched runs validated as behaviours of Interp with the policy inferred; "
                        f"(4) {nsched} schedules generated by TLC simulation replayed through the Scripted adapter on the real engine. evaluations = policy runs + schedules + traces; distinct non-trivial = distinct instances with >= 1 row and >= 2 resolver calls")
-    res.notes.update({"policy_runs": npol, "mc_instances": len(small), "mc_states": mc["distinct"], "mc_complete": mc["complete"], "mc_wall_s": round(mc["wall"], 1), "traces": len(txs), "traces_accepted": len(acc),
+    res.notes.update({"policy_runs": npol, "mc_instances": len(small), "mc_states": mc["distinct"], "mc_complete": mc["complete"], "mc_wall_s": round(mc["wall"], 1), "mc_actions_taken": mc["actions"], "mc_actions_never_taken": [a for a, n in mc["actions"].items() if n == 0], "traces": len(txs), "traces_accepted": len(acc),
                       "traces_rejected": len(rej), "tlc_schedules_replayed": nsched, "schedule_drift": sdrift})
     if txs: res.sample({"trace_of": txs[0]["text"], "policy": txs[0]["default"], "events": [f"{e['e']}:{e['call'] or e['ny']}" for e in txs[0]["events"][:25]]}, cap=4)
     if scheds and rinsts: res.sample({"tlc_schedule": rinsts[0]["scheds"][0][:80], "query": rinsts[0]["text"]}, cap=5)
@@ -154,7 +154,8 @@ def check_C03(tier, seed):
     # model level: Interp with the adapter that never reads ahead satisfies Lazy in every state (nothing fetched unless the consumer waits,
     # a row comes from the last start vertex fetched, no buffered data between requests)
     import props_interp as PI
-    small = [PI.interp_instance(i, o) for i, o in zip(insts[:ntrace], obs[:ntrace]) if PI.usable(i, o, 30)][: (150 if tier == "quick" else 1500)]
+    small = [PI.interp_instance(i, o) for i, o in zip(insts[:ntrace], obs[:ntrace]) if PI.usable(i, o, 30)]
+    small = PI.stratify(small, 150 if tier == "quick" else 1500)
     for k, x in enumerate(small): x["id"] = k + 1
     mc = PI.mc_explore(res, small, "MC_Interp_lazy", wd, "mc", timeout=(300 if tier == "quick" else 1800))
     for inv, x in mc["violated"]:
@@ -181,7 +182,7 @@ def check_C03(tier, seed):
                        "TLC checks pulled(k) <= position of the contributing start vertex (Sem!RowsFrom), zero accesses before the first request, zero accesses after dropping at k (k <= 6). "
                        f"Model level: TLC checks the invariant Lazy of spec/Interp.tla (Cap = 1, no pulls inside calls) on {len(small)} instances; the real AdapterTap traces of the unbatched engine are validated as behaviours of that "
                        "lazy configuration with Lazy evaluated after every event. evaluations = prefixes judged; distinct non-trivial = distinct instances with >= 1 row and >= 2 start vertices")
-    res.notes.update({"mc_instances": len(small), "mc_states": mc["distinct"], "mc_complete": mc["complete"], "lazy_traces": len(txs), "lazy_traces_accepted": len(acc), "lazy_traces_rejected": len(rej)})
+    res.notes.update({"mc_instances": len(small), "mc_states": mc["distinct"], "mc_complete": mc["complete"], "mc_actions_never_taken": [a for a, n in mc["actions"].items() if n == 0], "lazy_traces": len(txs), "lazy_traces_accepted": len(acc), "lazy_traces_rejected": len(rej)})
     return res
 
 # ------------------------------------------------------------------ C04
